@@ -13,20 +13,20 @@ import (
 
 // Result is what one run reports to the worker loop.
 type Result struct {
-	Seed     uint64         `json:"seed"`
-	Viol     []Violation    `json:"violations,omitempty"`
-	Hash     uint64         `json:"hash"`
-	Steps    int            `json:"steps"`
-	NChoices int            `json:"n_choices"`
-	Probes   map[string]int `json:"probes,omitempty"`
-	Faults   map[string]int `json:"faults,omitempty"`
-	SimNS    int64          `json:"sim_ns"`
+	Seed     uint64              `json:"seed"`
+	Viol     []Violation         `json:"violations,omitempty"`
+	Hash     uint64              `json:"hash"`
+	Steps    int                 `json:"steps"`
+	NChoices int                 `json:"n_choices"`
+	Probes   map[string]int      `json:"probes,omitempty"`
+	Faults   map[string]int      `json:"faults,omitempty"`
+	SimNS    int64               `json:"sim_ns"`
 	States   map[uint64]struct{} `json:"-"`
-	Reason   string         `json:"reason"`
-	Made     []int          `json:"-"`
-	Log      []string       `json:"log,omitempty"`
-	Infra    string         `json:"infra,omitempty"` // harness/infrastructure trouble: never a verdict
-	Installs int            `json:"installs"`
+	Reason   string              `json:"reason"`
+	Made     []int               `json:"-"`
+	Log      []string            `json:"log,omitempty"`
+	Infra    string              `json:"infra,omitempty"` // harness/infrastructure trouble: never a verdict
+	Installs int                 `json:"installs"`
 }
 
 const settleHorizon = 4 * time.Hour
